@@ -670,7 +670,87 @@ def guards_at(body, bb, facts=None, inline=True, _depth=0):
                 ok = False
         if ok:
             res.append((s, d, c, v))
-    return expand_short_circuit(body, facts, inline, res, _depth)
+    res = expand_short_circuit(body, facts, inline, res, _depth)
+    return expand_discr_correlation(body, facts, inline, res, _depth)
+
+
+def _deciding_defs(body, l, loc, field=None, depth=0):
+    """definition sites that decide a locally constructed value: for field=None the enum variant of local `l` (dval of the
+    variant construction), otherwise the constant stored in field number `field` of the aggregate built into `l`.
+    [(bb, si, value)] or None when some reaching definition is not such a construction (moves are followed)."""
+    if depth > 6:
+        return None
+    out = []
+    for d in reaching_defs(body, l, loc):
+        if d[0] == "entry" or d[2] != "assign":
+            return None
+        rv = d[3]
+        if rv["k"] == "agg" and field is None and rv.get("ak") == "adt" and "dval" in rv:
+            out.append((d[0], d[1], rv["dval"]))
+        elif rv["k"] == "agg" and field is not None and field < len(rv["ops"]) and rv["ops"][field]["k"] == "const" and "v" in rv["ops"][field]:
+            out.append((d[0], d[1], rv["ops"][field]["v"]))
+        elif rv["k"] == "use" and rv["op"]["k"] in ("move", "copy") and not rv["op"]["pl"]["p"]:
+            sub = _deciding_defs(body, rv["op"]["pl"]["l"], (d[0], d[1]), field, depth + 1)
+            if sub is None:
+                return None
+            out.extend(sub)
+        else:
+            return None
+    return out
+
+
+def expand_discr_correlation(body, facts, inline, guards, depth=0):
+    """`match classify(x) { A => .., B => .. }` where the enum value was built by plain variant constructions (typically
+    in an inlined helper: `if c1 { return A }; assert!(c2); B`): being in the arm of variant V implies every fact that
+    holds where V was constructed. Likewise for a flag carried in a locally built tuple / struct:
+    `let (x, last) = match o { Some(h) => (h, true), None => (y, false) }; if last { .. }`."""
+    if depth > 3:
+        return guards
+    out = list(guards)
+    defs = defs_of(body)
+    for (s, d, c, v) in guards:
+        if v[0] not in ("eq", "eqint", "neint", "notin"):
+            continue
+        t = body.blocks[s]["term"]
+        if t["k"] != "switch":
+            continue
+        op = t["discr"]
+        if op["k"] not in ("copy", "move") or op["pl"]["p"]:
+            continue
+        l = op["pl"]["l"]
+        ds = defs.get(l, [])
+        for _ in range(6):
+            # plain copies of the deciding value through temporaries
+            if len(ds) == 1 and ds[0][2] == "assign" and ds[0][3]["k"] == "use" and ds[0][3]["op"]["k"] in ("copy", "move") \
+                    and not ds[0][3]["op"]["pl"]["p"]:
+                l = ds[0][3]["op"]["pl"]["l"]
+                ds = defs.get(l, [])
+                continue
+            break
+        if len(ds) != 1 or ds[0][2] != "assign":
+            continue
+        rv = ds[0][3]
+        if rv["k"] == "discr" and not rv["pl"]["p"]:
+            vd = _deciding_defs(body, rv["pl"]["l"], (ds[0][0], ds[0][1]))
+        elif rv["k"] == "use" and rv["op"]["k"] in ("copy", "move") and len(rv["op"]["pl"]["p"]) == 1 \
+                and isinstance(rv["op"]["pl"]["p"][0], dict) and "f" in rv["op"]["pl"]["p"][0]:
+            vd = _deciding_defs(body, rv["op"]["pl"]["l"], (ds[0][0], ds[0][1]), field=rv["op"]["pl"]["p"][0]["f"])
+        else:
+            continue
+        if not vd or len(vd) < 2:
+            continue
+        if v[0] in ("eq", "eqint"):
+            feas = [x for x in vd if x[2] == v[1]]
+        else:
+            feas = [x for x in vd if x[2] not in v[1]]
+        if not feas or len(feas) == len(vd):
+            continue
+        common = None
+        for (bb, si, _) in feas:
+            g = guards_at(body, bb, facts, inline, _depth=depth + 1)
+            common = list(g) if common is None else [x for x in common if x in g]
+        out.extend(g for g in (common or []) if g not in out)
+    return out
 
 
 def expand_short_circuit(body, facts, inline, guards, depth=0):
@@ -723,6 +803,143 @@ def expand_short_circuit(body, facts, inline, guards, depth=0):
             e = eb.rvalue(dd[3], (dd[0], dd[1]), 0)
             out.append((dd[0], dd[0], e, ("eq", want)))
     return out
+
+
+def _replace(e, fn):
+    """bottom-up rewrite of an expression tree"""
+    if not isinstance(e, tuple) or not e:
+        return e
+    e2 = tuple(_replace(x, fn) if isinstance(x, tuple) else x for x in e)
+    r = fn(e2)
+    return e2 if r is None else r
+
+
+def apply_closure(cexpr, args, facts, depth=2):
+    """value of calling the closure expression `cexpr` = ('closure', did, captured operands) (possibly behind references)
+    with `args`: the closure body's return expression with parameters and captures substituted; None when unknown"""
+    c = cexpr
+    while isinstance(c, tuple) and c and c[0] in ("ref", "deref"):
+        c = c[1]
+    if not (isinstance(c, tuple) and c and c[0] == "closure") or c[1] is None:
+        return None
+    cb = facts.by_did.get(c[1])
+    if cb is None:
+        return None
+    e = return_expr(cb, facts, inline=True, depth=depth)
+    if isinstance(e, tuple) and e and e[0] == "unknown":
+        return None
+    caps = c[2]
+
+    def sub(x):
+        if x[0] == "param":
+            if x[1] >= 2 and x[1] - 2 < len(args):
+                return args[x[1] - 2]
+            return None
+        if x[0] == "field" and x[1] in (("param", 1), ("deref", ("param", 1))) and str(x[2]).isdigit() and int(x[2]) < len(caps):
+            return caps[int(x[2])]
+        if x[0] == "deref" and isinstance(x[1], tuple) and x[1] and x[1][0] == "ref":
+            return x[1][1]
+        return None
+    return _replace(e, sub)
+
+
+_RESULT_OK = {"Ok": 0, "Err": 1, "Some": 1, "None": 0}
+
+
+def expand_combinators(e, facts, depth=0):
+    """Option / Result combinators as guarded alternatives: returns [(value, [relations])] for
+    `r.map(f).unwrap_or(d)`, `r.map_or(d, f)`, `r.map(f).unwrap_or_else(g)`, `r.unwrap_or(d)`, `r.ok().map(f)...`, or None.
+    The payload is written as the match lowering writes it (variant(r, Ok).0), so both spellings compare equal."""
+    if depth > 3 or not (isinstance(e, tuple) and e and e[0] == "call"):
+        return None
+    nm = e[1].rsplit("::", 1)[-1]
+    is_res = "result::Result" in e[1]
+    is_opt = "option::Option" in e[1]
+    if not (is_res or is_opt):
+        return None
+    good, bad = ("Ok", "Err") if is_res else ("Some", "None")
+
+    def scrut(r):
+        """(scrutinee, payload transformer, scrutinee is a Result) looking through .ok() and one .map(f)"""
+        f = None
+        res_ = is_res
+        while True:
+            if isinstance(r, tuple) and r and r[0] == "call" and r[1].rsplit("::", 1)[-1] == "ok" and len(r[2]) == 1 and "result::Result" in r[1]:
+                r = r[2][0]
+                res_ = True
+                continue
+            if isinstance(r, tuple) and r and r[0] == "call" and r[1].rsplit("::", 1)[-1] == "map" and len(r[2]) == 2 and f is None \
+                    and ("result::Result" in r[1] or "option::Option" in r[1]):
+                f = r[2][1]
+                res_ = "result::Result" in r[1]
+                r = r[2][0]
+                continue
+            return r, f, res_
+    args = e[2]
+    if nm in ("unwrap_or", "unwrap_or_else") and len(args) == 2:
+        r, f, rres = scrut(args[0])
+        g0 = "Ok" if rres else "Some"
+        pay = ("field", ("variant", r, g0), "0")
+        val = pay if f is None else apply_closure(f, [pay], facts)
+        if val is None:
+            return None
+        if nm == "unwrap_or":
+            dv = args[1]
+        else:
+            dv = apply_closure(args[1], [("field", ("variant", r, "Err"), "0")] if rres and is_res else [], facts)
+            if dv is None:
+                return None
+        return [(val, [("truth", ("discr", r), _RESULT_OK[g0])]), (dv, [("truth", ("discr", r), 1 - _RESULT_OK[g0])])]
+    if nm == "map_or" and len(args) == 3:
+        r, f0, rres = scrut(args[0])
+        if f0 is not None:
+            return None
+        g0 = "Ok" if rres else "Some"
+        pay = ("field", ("variant", r, g0), "0")
+        val = apply_closure(args[2], [pay], facts)
+        if val is None:
+            return None
+        return [(val, [("truth", ("discr", r), _RESULT_OK[g0])]), (args[1], [("truth", ("discr", r), 1 - _RESULT_OK[g0])])]
+    return None
+
+
+def first_effect_block(body, start, env=None, limit=40):
+    """follow control flow from `start` through blocks that only shuffle compiler temporaries (constant assignments to
+    bool locals, storage markers, gotos and switches on those constants) to the first block that does something
+    observable (a call, a store through a projection, a return, a switch on unknown data)."""
+    env = dict(env or {})
+    bi = start
+    for _ in range(limit):
+        blk = body.blocks[bi]
+        transparent = True
+        for st in blk["stmts"]:
+            if st["k"] in ("dead", "live", "nop"):
+                continue
+            if st["k"] == "assign" and not st["pl"]["p"] and st["rv"]["k"] == "use":
+                op = st["rv"]["op"]
+                if op["k"] == "const" and "v" in op:
+                    env[st["pl"]["l"]] = op["v"]
+                    continue
+                if op["k"] in ("copy", "move") and not op["pl"]["p"] and op["pl"]["l"] in env:
+                    env[st["pl"]["l"]] = env[op["pl"]["l"]]
+                    continue
+                if op["k"] == "const":
+                    continue            # unit / zero-sized constants
+            transparent = False
+            break
+        if not transparent:
+            return bi
+        t = blk["term"]
+        if t["k"] == "goto":
+            bi = t["target"]
+            continue
+        if t["k"] == "switch" and t["discr"]["k"] in ("copy", "move") and not t["discr"]["pl"]["p"] and t["discr"]["pl"]["l"] in env:
+            val = env[t["discr"]["pl"]["l"]]
+            nxt = [d for v_, d in t["targets"] if v_ == val]
+            bi = nxt[0] if nxt else t["otherwise"]
+            continue
+        return bi
+    return bi
 
 
 def normalize_cmp(c, v):
